@@ -1,0 +1,23 @@
+//go:build verif
+
+package agent
+
+// verifYieldHook, when set by a verification harness, is called at the named
+// scheduling points (so that the harness can hold a goroutine there).
+var verifYieldHook func(point string)
+
+// VerifSetYieldHook installs (or, with nil, removes) the scheduling-point hook.
+func VerifSetYieldHook(f func(point string)) { verifYieldHook = f }
+
+func verifYieldSleepcmd(point string) {
+	if h := verifYieldHook; h != nil {
+		h(point)
+	}
+}
+
+// VerifDoPoll runs the agent's OnPoll callback (doPoll).
+func (a *Agent) VerifDoPoll() error { return a.doPoll() }
+
+// VerifPeersPaused reports whether the peer manager's reconnector is paused
+// (DisconnectAll pauses it, ReconnectAll resumes it).
+func (a *Agent) VerifPeersPaused() bool { return a.peerMgr.IsPaused() }
